@@ -310,7 +310,23 @@ class EGen:
                 actions.append(act)
             else:
                 body.append(brk)
+                # statements that generate no code right next to the failing
+                # one (their empty records must not disturb its boundaries)
+                zs = []
+                for side in range(2):
+                    if self.chance(0.35):
+                        zs.append(self.pick([
+                            A.Const('zc%d%d%%' % (q, side), N(1)),
+                            A.Dim('dim', [A.Decl('zd%d%d' % (q, side), '%',
+                                                 None, True)])]))
+                        self.note('zero_code_neighbour')
+                    else:
+                        zs.append(None)
+                if zs[0] is not None:
+                    body.append(zs[0])
                 body.append(stmt)
+                if zs[1] is not None:
+                    body.append(zs[1])
                 actions.append(act)
             self.note('action_' + act)
         top.extend(body)
